@@ -63,6 +63,8 @@ def session_scenario(rng, purpose="rewind", allow_spend=True):
     d = scn.pop("debug_opt", None)
     if d and d != "--debug=":
         scn["opts"] = list(scn["opts"]) + [d]
+    if rng.chance(30):
+        scn["argv_style"] = rng.below(1 << 30)      # the same command line, spelt another way (session.respell_argv)
     return scn
 
 
